@@ -41,6 +41,7 @@ pub async fn start(world: Arc<World>, script: HashMap<String, Vec<Outcome>>, def
     let attempts: Arc<Mutex<HashMap<String, usize>>> = Arc::new(Mutex::new(HashMap::new()));
     let script = Arc::new(script);
     let default = Arc::new(default);
+    let base: Arc<str> = Arc::from(url.as_str());
     let task = tokio::spawn({
         let seen = Arc::clone(&seen);
         async move {
@@ -51,6 +52,7 @@ pub async fn start(world: Arc<World>, script: HashMap<String, Vec<Outcome>>, def
                 let attempts = Arc::clone(&attempts);
                 let script = Arc::clone(&script);
                 let default = Arc::clone(&default);
+                let base = Arc::clone(&base);
                 tokio::spawn(async move {
                     let handle = move |req: Request<hyper::body::Incoming>| {
                         let world = Arc::clone(&world);
@@ -58,6 +60,7 @@ pub async fn start(world: Arc<World>, script: HashMap<String, Vec<Outcome>>, def
                         let attempts = Arc::clone(&attempts);
                         let script = Arc::clone(&script);
                         let default = Arc::clone(&default);
+                        let base = Arc::clone(&base);
                         async move {
                             let content_type = req
                                 .headers()
@@ -66,6 +69,9 @@ pub async fn start(world: Arc<World>, script: HashMap<String, Vec<Outcome>>, def
                                 .unwrap_or("")
                                 .to_string();
                             let method = req.method().to_string();
+                            // the endpoint this request was addressed to, spelled the way scenarios configure it
+                            let path = req.uri().path().to_string();
+                            let ep = if path == "/" { base.to_string() } else { format!("{}{}", base, path) };
                             let body = req.collect().await.map(|b| b.to_bytes()).unwrap_or_default();
                             let parsed: serde_json::Value = serde_json::from_slice(&body).unwrap_or(json!({}));
                             let msg = parsed.get("message").cloned().unwrap_or(json!({}));
@@ -103,7 +109,7 @@ pub async fn start(world: Arc<World>, script: HashMap<String, Vec<Outcome>>, def
                                     // a delayed answer is pending until it is sent (`httpans`)
                                     "attrs": attrs_list(&attrs), "attempt": k,
                                     "code": if delay > 0 { -(100 + k as i64) } else { code }, "delay": delay,
-                                    "method": method, "json": content_type.starts_with("application/json"),
+                                    "method": method, "json": content_type.starts_with("application/json"), "ep": ep,
                                 }),
                             );
                             seen.fetch_add(1, Ordering::SeqCst);
